@@ -91,10 +91,17 @@ fn vertex_type_iter(
 
         Box::new(neighbors)
     } else if let Some(CandidateValue::Multiple(possibilities)) = vertex_type_name {
+        // The candidate names come straight from the query's arguments and may repeat:
+        // a type named twice in a `one_of` list must still be produced only once.
+        let mut seen_names = std::collections::BTreeSet::new();
         let neighbors = possibilities.into_iter().filter_map(move |name| {
+            let name = name.as_arc_str().expect("vertex type name was not a string");
+            if !seen_names.insert(name.clone()) {
+                return None;
+            }
             schema
                 .vertex_types
-                .get(name.as_arc_str().expect("vertex type name was not a string"))
+                .get(name)
                 .and_then(move |defn| {
                     (defn.name.node != root_query_type)
                         .then(|| SchemaVertex::VertexType(VertexType::new(defn)))
